@@ -122,6 +122,25 @@ def _run_shard(job):
         mod = importlib.import_module(modname)
         r = R(label)
         getattr(mod, fname)(args, r)
+        if fname in getattr(mod, 'SECOND_PASS', ()) and (
+                (isinstance(args, list) and len(args) > 1) or isinstance(args, dict)):
+            # Differential oracle for hidden process-wide state (module-level
+            # caches, tables shared between objects): the same cases once more
+            # in the opposite order, inside the same process.  The cases are
+            # independent, so every verdict must be the same; a violation that
+            # shows only in one of the two orders is reported like any other.
+            r2 = R(label)
+            getattr(mod, fname)(list(reversed(args)) if isinstance(args, list)
+                                else dict(args, reverse=True), r2)
+            seen = set(json.dumps([v['key'], jsonable(v['case'])], sort_keys=True, default=repr)
+                       for v in r.violations)
+            for v in r2.violations:
+                k = json.dumps([v['key'], jsonable(v['case'])], sort_keys=True, default=repr)
+                if k not in seen:
+                    seen.add(k)
+                    r.stats['violations_only_in_reversed_order'] += 1
+                    r.bad(v['key'], v['what'] + ' [second pass, cases in reverse order]', v['case'])
+            r.stats['second_pass_cases_in_reverse_order'] += r2.evals
         out = r.export()
     except BaseException:  # harness failure, not a property violation
         out = {'label': label, 'harness_error': traceback.format_exc()}
